@@ -35,6 +35,8 @@ INVS = {
     "eigrel": ["EigRelInput"],
 }
 INVS["projx"] = INVS["proj"]
+ACTION_OF = {"proj": "Proj", "projx": "Proj", "chord": "Chord", "conv": "Conv", "ebn0": "Eb", "eig": "Eig", "svd": "Svd",
+             "gmd": "Gmd", "whiten": "Whiten", "eigrel": "EigRel"}
 ACTIONS = ["Proj", "Chord", "SmwPick", "SmwStep", "Conv", "Eb", "Eig", "Svd", "Gmd", "Whiten", "EigRel"]
 
 SQ = lambda *ns: [[n, n] for n in ns]
@@ -485,7 +487,10 @@ def run(ctx):
     def one(j):
         label, kind, shapes, alpha, lo, hi = j
         cfg, defs = model(kind, shapes, alpha, lo, hi, ctx.seed)
-        return tlc.run(MODULE, cfg, defs=defs, coverage=True)
+        # no -coverage here: TLC's coverage report does not terminate in reasonable time on the recursive
+        # operators of this module (measured: > 25 CPU-minutes after a 40 s run).  Which action fired is
+        # known from the emission itself: every emitted case is one firing of the action named in ACTION_OF.
+        return tlc.run(MODULE, cfg, defs=defs, timeout=1800)
     with ThreadPoolExecutor(threads()) as ex:
         devf = ex.submit(model_devs, ctx)
         runs = list(ex.map(one, jobs))
@@ -498,6 +503,9 @@ def run(ctx):
         if not em:
             raise tlc.TlcError(f"family {j[0]} ids {j[4]}..{j[5]} emitted no case")
         per_family[j[0]] = per_family.get(j[0], 0) + len(em)
+        for c in em:
+            act = ("SmwPick" if c["k"] == 0 else "SmwStep") if c["kind"] == "smw" else ACTION_OF[j[1]]
+            ctx.actions[act] = ctx.actions.get(act, 0) + 1
         cases += em
     ctx.require_actions(ACTIONS)
     res = pool_map(eval_case, cases, chunksize=max(1, len(cases) // 128))
